@@ -147,6 +147,30 @@ def run_case(case, tier):
         viol.append({"cls": "pi-line-missing", "msg": "no pI line in the .pka file"})
     else:
         charge.check_pi(parsed["pi"], groups, 0.0, 14.0, 1e-4, viol, counts, "text", slack=0.005)
+    # a .pka file written for one conformation (public propka.output.write_pka): its table and its pI
+    # line describe that conformation
+    if len(run.rec["names"]) > 1:
+        import os
+        import propka.output as po
+        for name in run.rec["names"][:3]:
+            path = os.path.join(util.worker_tmp(), "conf_%s.pka" % name)
+            try:
+                po.write_pka(mol, mol.version.parameters, filename=path, conformation=name, verbose=False)
+                ctext = open(path).read()
+            except Exception as e:
+                viol.append({"cls": "per-conformation-file-raises", "msg": "write_pka(conformation=%r): %r" % (name, e)})
+                continue
+            cparsed = obs.parse_pka_text(ctext)
+            cgroups = run.rec["confs"][name]["groups"]
+            counts["per_conformation_files"] = counts.get("per_conformation_files", 0) + 1
+            if cparsed["charge"]:
+                charge.check_charge_profile(cparsed["charge"], cgroups, viol, counts, "text")
+            if cparsed["pi"] is not None:
+                nv = len(viol)
+                charge.check_pi(cparsed["pi"], cgroups, 0.0, 14.0, 1e-4, viol, counts,
+                                "file written for conformation %s" % name, slack=0.005)
+                for v in viol[nv:]:
+                    v["cls"] = "per-conformation-file:" + v["cls"]
     if pichecked:
         classes.append("pi-sign-change-checked")
     nontrivial = shifted >= 2 and pichecked > 0
